@@ -194,6 +194,8 @@ impl Sched {
                 want
             }
             "random" => self.rng.idx(parked.len()),
+            // the reverse of the canonical order: among the parked calls of one client's threads, the other end
+            "last" => parked.len() - 1,
             "pct" => {
                 if self.change_at.contains(&step) {
                     // demote the currently highest-priority client
@@ -1018,7 +1020,9 @@ pub fn run_scenario(ctx: &mut Ctx, _spec: &CheckSpec, sc: &Value, run_id: &str) 
     };
     match kind.as_str() {
         "enumerate" => {
-            let mut census_plan = json!({"faults":[],"schedule":{"policy":"first"}});
+            // which of a multi-threaded victim's parked calls goes first: fixed for the whole enumeration
+            let sched = if sc["plan"]["schedule"].is_object() { sc["plan"]["schedule"].clone() } else { json!({"policy":"first"}) };
+            let mut census_plan = json!({"faults":[],"schedule":sched.clone()});
             let mut census = run_plan(ctx, sc, &census_plan, &format!("{run_id}c"));
             let mut prefault: Option<Value> = None;
             if let Some(call) = sc["plan"]["prefault_call"].as_str() {
@@ -1026,7 +1030,7 @@ pub fn run_scenario(ctx: &mut Ctx, _spec: &CheckSpec, sc: &Value, run_id: &str) 
                 // of the error path that follows are enumerated
                 if let Some(ev) = census.events.iter().find(|e| e.client == 0 && e.op.is_some() && e.sys.name.starts_with(call)) {
                     let pf = json!({"client":0,"at":ev.ord,"action":{"a":"errno","e":sc["plan"]["prefault_errno"].as_i64().unwrap_or(18)}});
-                    census_plan = json!({"faults":[pf.clone()],"schedule":{"policy":"first"}});
+                    census_plan = json!({"faults":[pf.clone()],"schedule":sched.clone()});
                     let h = census.harness.clone();
                     absorb(&mut out, census, false);
                     if h.is_some() {
@@ -1055,8 +1059,8 @@ pub fn run_scenario(ctx: &mut Ctx, _spec: &CheckSpec, sc: &Value, run_id: &str) 
             let mut npairs = 0u64;
             for (i, f) in faults.iter().enumerate() {
                 let plan = match &prefault {
-                    Some(pf) => json!({"faults":[pf, f],"schedule":{"policy":"first"}}),
-                    None => json!({"faults":[f],"schedule":{"policy":"first"}}),
+                    Some(pf) => json!({"faults":[pf, f],"schedule":sched.clone()}),
+                    None => json!({"faults":[f],"schedule":sched.clone()}),
                 };
                 let sub = run_plan(ctx, sc, &plan, &format!("{run_id}f{i}"));
                 // fault pairs (thorough): a second errno on a call that the first fault's error path goes on to make
@@ -1074,7 +1078,7 @@ pub fn run_scenario(ctx: &mut Ctx, _spec: &CheckSpec, sc: &Value, run_id: &str) 
                 }
                 absorb(&mut out, sub, true);
                 for (j, f2) in second.iter().enumerate() {
-                    let plan = json!({"faults":[f, f2],"schedule":{"policy":"first"}});
+                    let plan = json!({"faults":[f, f2],"schedule":sched.clone()});
                     let sub = run_plan(ctx, sc, &plan, &format!("{run_id}f{i}p{j}"));
                     absorb(&mut out, sub, true);
                     npairs += 1;
@@ -1176,6 +1180,18 @@ fn audits_all(what: &[&str]) -> Vec<Value> {
 
 fn client_flavs() -> [(&'static str, &'static str); 5] {
     FLAVS
+}
+
+/// schedule of a multi-threaded (async) victim's own threads during a fault enumeration
+fn victim_schedule(rng: &mut Rng, mode: &str) -> Value {
+    if mode != "async" {
+        return json!({"policy":"first"});
+    }
+    match rng.below(4) {
+        0 | 1 => json!({"policy":"first"}),
+        2 => json!({"policy":"last"}),
+        _ => json!({"policy":"random","seed":rng.next_u64() >> 1}),
+    }
 }
 
 fn victim_write(rng: &mut Rng, keyed: bool, vi: usize, len: u64, ki: usize) -> Value {
@@ -1290,7 +1306,7 @@ fn gen_c03(rng: &mut Rng, r: u64) -> Value {
     for fl in PURE {
         post.push(json!({"k":"audit","bin":fl.0,"mode":fl.1,"what":["metadata","read","read_hash","exists"]}));
     }
-    let mut plan = json!({"kind":"enumerate","mode":"kill"});
+    let mut plan = json!({"kind":"enumerate","mode":"kill","schedule":victim_schedule(rng, f.1)});
     if r % 3 == 2 {
         // the publishing rename fails (another filesystem, permissions, ...): whatever the error path does instead is crash-tested
         plan["prefault_call"] = json!("rename");
@@ -1351,7 +1367,7 @@ fn gen_c04(rng: &mut Rng, r: u64) -> Value {
     }
     post.extend(audits_all(&["metadata", "read", "list"]));
     json!({"keys":keys,"vals":vals,"prelude":prelude,"clients":[{"bin":f.0,"steps":[v]}],"post":post,
-           "plan":{"kind":"enumerate","mode":"kill","torn_index_every_length":true},"oracle":"fault"})
+           "plan":{"kind":"enumerate","mode":"kill","torn_index_every_length":true,"schedule":victim_schedule(rng, f.1)},"oracle":"fault"})
 }
 
 fn gen_c13(rng: &mut Rng, r: u64) -> Value {
@@ -1403,7 +1419,7 @@ fn gen_c13(rng: &mut Rng, r: u64) -> Value {
         post.push(json!({"k":"audit","bin":fl.0,"mode":fl.1,"what":["metadata","read","read_hash","exists","list"]}));
     }
     json!({"keys":keys,"vals":vals,"prelude":prelude,"clients":[{"bin":f.0,"steps":[v]}],"post":post,"retry":true,
-           "plan":{"kind":"enumerate","mode":"errno"},"oracle":"fault"})
+           "plan":{"kind":"enumerate","mode":"errno","schedule":victim_schedule(rng, f.1)},"oracle":"fault"})
 }
 
 fn gen_c15(rng: &mut Rng, _r: u64) -> Value {
